@@ -201,7 +201,55 @@ def run(v) -> None:
                     "Moments (power sums) via Trace_Moments!ObsOK")
         return None
 
-    tracecheck.validate_total("Trace_Moments", traces, on_reject, verdict=v, label="ChannelStats histories", chunk=1200)
+    # ---- streams too long for TLC's 32-bit integers: the Python transcription of Moments.tla (harness/moments_oracle.py) -------------
+    from .. import moments_oracle as mo
+    from sigpyproc.core.stats import ChannelStats
+
+    def oracle_rejects(tr):
+        accs = {}
+        C = tr["hdr"]["nchans"]
+        for e in tr["ev"]:
+            if e["a"] == "push":
+                cols = [[row[c] for row in e["chunk"]] for c in range(C)]
+                accs[e["k"]] = [mo.merge(accs.get(e["k"], [{"n": 0}] * C)[c], mo.of_seq(cols[c])) if cols[c] else accs[e["k"]][c] for c in range(C)]
+            else:
+                accs[e["k"]] = [mo.merge(accs[e["ka"]][c], accs[e["kb"]][c]) for c in range(C)]
+            if not all(mo.obs_ok_basic(accs[e["k"]][c], e["obs"][c], e["q"], e["nsamps"], e["tolmean"], e["tolvar"]) for c in range(C)):
+                return True
+        return False
+    tlc_rejected = set()
+
+    def on_reject2(tr, pos):
+        tlc_rejected.add(id(tr))
+        return on_reject(tr, pos)
+    tracecheck.validate_total("Trace_Moments", traces, on_reject2, verdict=v, label="ChannelStats histories", chunk=2000)
+    lone = [t for t in traces if oracle_rejects(t) and id(t) not in tlc_rejected]
+    if lone:
+        from ..common import MachineryFailure
+        raise MachineryFailure(f"the Python transcription of Moments.tla rejects {len(lone)} histories that TLC accepts: it is not the specification")
+    nbig = 0
+    for (L1, L2, C) in ([(60000, 70000, 2)] if quick else [(60000, 70000, 2), (46341, 46341, 1), (200000, 100, 3), (30000, 80000, 2)]):
+        for mode in ("basic", "full"):
+            for order in ("ab", "ba"):
+                nrng = np.random.default_rng(seed() * 7 + L1 + len(mode))
+                x1 = nrng.integers(0, 4, size=(L1, C))
+                x2 = nrng.integers(2, 6, size=(L2, C))          # a different level: the merge has to move the mean
+                sa, sb = ChannelStats(C, L1), ChannelStats(C, L2)
+                for st, x in ((sa, x1), (sb, x2)):
+                    cuts = [0, len(x) // 3, len(x) // 3 + 17, len(x)]
+                    for lo, hi in zip(cuts, cuts[1:]):
+                        st.push_data(x[lo:hi].astype(np.float32).ravel(), 0 if lo == 0 else lo, mode=mode)
+                merged = (sa + sb) if order == "ab" else (sb + sa)
+                obs = observe(merged, 1.0, 0.0, False)
+                nbig += 1
+                v.evaluations += 1
+                for c in range(C):
+                    acc = mo.merge(mo.of_seq([int(t) for t in x1[:, c]]), mo.of_seq([int(t) for t in x2[:, c]]))
+                    if not mo.obs_ok_basic(acc, obs[c], Q, L1 + L2, int(0.01 * Q), int(0.02 * Q)):
+                        v.violation("MergeOfLongStreams", "ChannelStats.__add__", {"kind": "bigmerge", "counts": [L1, L2], "C": C, "mode": mode, "order": order, "channel": c},
+                                    obs[c], {"n": acc["n"], "mean": acc["s1"] / acc["n"], "var": mo.A(acc) / acc["n"] ** 2, "mn": acc["mn"], "mx": acc["mx"]})
+                        break
+    v.extra["long_stream_merges_judged_by_transcription"] = nbig
     v.traces += len(traces)
     v.extra["events_validated"] = sum(len(t["ev"]) for t in traces)
     v.sample({"cfg": traces[0]["cfg"], "events": traces[0]["ev"][:2]})
